@@ -19,6 +19,8 @@ const (
 	kfTOCRemove = "KF-C13-toc-removed-style"
 	kfTblOpened = "KF-C13-tblstyle-opened"
 	kfRenderFrz = "KF-C13-styles-frozen-rendered"
+	kfReverted  = "KF-C13-style-reverted-after-open"
+	kfOpenReg   = "KF-C13-open-registry-predefined"
 )
 
 var reTOCID = regexp.MustCompile(`^(1[2-9]|2[01])$`)
@@ -106,7 +108,94 @@ func hasOp(c Case, pred func(Op) bool) bool {
 
 var reEmitted = regexp.MustCompile(`^(Heading[1-9]|1[2-9]|2[01])$`)
 
+// revertedOnOpened: on ONE opened document object the history changes a style, saves, and later changes a style again
+// in place (st.mod), or re-defines exactly the failing id (st.add / st.create / st.quick) - the shape in which a style can
+// be put back into the state it had when the document was opened after another state of it was saved.
+func revertedOnOpened(c Case, id string) bool {
+	opened := c.Start != nil
+	phase := 0 // 0 nothing yet, 1 a style was changed on the opened object, 2 ... and a save followed
+	for _, op := range c.Ops {
+		switch {
+		case op.K == "reopen":
+			opened, phase = true, 0
+		case op.K == "md":
+			opened, phase = false, 0
+		case !opened:
+		case op.K == "save":
+			if phase == 1 {
+				phase = 2
+			}
+		case op.K == "st.mod", (op.K == "st.add" || op.K == "st.create" || op.K == "st.quick") && op.St != nil:
+			if phase == 2 && (op.K == "st.mod" || op.St.ID == id) {
+				return true
+			}
+			if phase == 0 {
+				phase = 1
+			}
+		}
+	}
+	return false
+}
+
+// predefinedSetBackAfterReopen: the history (re)defines the failing predefined style (st.add / st.create / st.quick with exactly
+// that id, or some in-place change) and then reopens - the saved styles part now defines the id differently from the library's
+// predefined definition - and an in-place change (st.mod) follows on the opened document.
+func predefinedSetBackAfterReopen(c Case, id string) bool {
+	redefined, armed := false, false
+	for _, op := range c.Ops {
+		switch {
+		case op.K == "md":
+			redefined, armed = false, false
+		case op.K == "reopen":
+			if redefined {
+				armed = true
+			}
+		case op.K == "st.mod":
+			if armed {
+				return true
+			}
+			redefined = true
+		case (op.K == "st.add" || op.K == "st.create" || op.K == "st.quick") && op.St != nil && op.St.ID == id:
+			redefined = true
+		}
+	}
+	return false
+}
+
+func isPredefinedID(id string) bool {
+	_, ok := builtinTypes[id]
+	return ok || reTOCID.MatchString(id)
+}
+
 var findings = []kit.Finding[Case]{
+	{
+		ID:     kfOpenReg,
+		Clause: "C13.X4.attr",
+		Desc:   "the styles part is still not parsed on Open (LoadStylesFromDocument: expected element type <w:styles> but have <styles>), the registry of an opened document is the library's predefined set: when the file defines a predefined id differently (it was re-defined before the save that was opened), GetStyle returns the predefined definition, and an in-place change that sets a field to the value the predefined definition happens to have is not recognised as a change - the styles part keeps the file's value",
+		// input class: the failing id is a predefined one, the history re-defined it (or changed some style in place) before a reopen,
+		// and an in-place change follows on the opened document; the style is in the part, only an attribute differs
+		Trigger: func(c Case, f kit.Failure) bool {
+			kind, id, flags, ok := parse(f)
+			if !ok || kind != "style" || f.Clause != "C13.X4.attr" || !flags["late-style"] || !isPredefinedID(id) {
+				return false
+			}
+			return predefinedSetBackAfterReopen(c, id)
+		},
+	},
+	{
+		ID:     kfReverted,
+		Clause: "C13.X4.attr",
+		Desc:   "opened document: a style is changed through the style API and saved, then changed back to exactly the state it had when the document was opened: the second change never reaches the styles part, which keeps the definition written by the first save (extendOpenedStyles compares the registry with its state at Open, not with what the part holds now)",
+		// input class: on one opened document object a style change, a save, and a later in-place change (or a re-definition of exactly
+		// the failing id); the failing style is still in the styles part (only X4.attr, never X4/X1) and was touched after the open
+		Trigger: func(c Case, f kit.Failure) bool {
+			kind, id, flags, ok := parse(f)
+			if !ok || kind != "style" || f.Clause != "C13.X4.attr" || !flags["late-style"] {
+				return false
+			}
+			return revertedOnOpened(c, id)
+		},
+	},
 	{
 		ID:     kfFrozen,
 		Clause: "C13.X",
